@@ -158,6 +158,41 @@ STANDARD = {
                 "floor(x/(512/K)) <= K-1 with x >= 0, catch equals source except mode/is_convert. non-trivial = source has >= 2 objects",
         "required": {"class:version<8": 1, "class:version>=8": 1, "class:mania-key-mod": 1, "class:taiko-slider-split-into-hits": 1},
     },
+    "C05": {
+        "variants": ["rel", "dbg"],
+        "quick": 6000,
+        "thorough": 150000,
+        "budget": 30,
+        "mem": 4,
+        "timeout": 3000,
+        "rule": "case = text from G-gram (all profiles), G-mut, G-real windows or decodable noise; judged only if it decodes, passes "
+                "check_suspicion, has <= 400 objects, <= 100 repeats and <= 20000px per slider and the static nested-object estimate is "
+                "<= 50000 (others counted as out_of_domain); sweep per reachable mode: 3 conversion entry points, difficulty, strains, "
+                "attribute builder, gradual difficulty with random next/nth strides and pokes after exhaustion, gradual performance with "
+                "random states, Performance with accuracy/hit-result subsets/misses/combos up to 2N+2 from map and attributes, "
+                "generate_state, try_mode, bpm; settings over the documented ranges (clock 0.01..100, overrides -20..20). Oracles: panic "
+                "hook, worker exit status, 30 CPU-s per API call watchdog (confirmed on an isolated re-run), 4 GiB address space. The "
+                "debug (overflow-checked) build sweeps only maps inside the realistic domain (times in [0,3h], coordinates near the "
+                "playfield) with game-reachable settings. non-trivial = in-domain map with >= 2 objects",
+        "required": {"domain:realistic": 1, "domain:adversarial-only": 1, "sweep:osu": 1, "sweep:taiko": 1, "sweep:catch": 1,
+                     "sweep:mania": 1},
+        "assume": ["non-termination is restated as bounded progress: one API call may use at most 30 CPU seconds",
+                   "slider work is bounded is made precise by the static estimate in harness/rpv/src/maps.rs::slider_work"],
+    },
+    "C06": {
+        "variants": ["rel"],
+        "quick": 40000,
+        "thorough": 1500000,
+        "rule": "case = byte string: random noise, UTF-16 LE/BE with/without BOM, invalid UTF-8, CR/NUL mixes, 100 kB lines, byte flips; "
+                "grammar profiles limits/ties/slider-zoo with numbers at and beyond every parser limit and NaN/inf/-0 tokens; mutated "
+                "fixtures (shuffled/duplicated/truncated/corrupted lines, moved section headers); timing-point torture (0/-0/duplicate "
+                "times, NaN beat lengths); pairing files (unique (x,y) and known sound per line, massive start-time ties, shuffled). "
+                "Oracles: no panic, Ok or io::Error; objects sorted; one sound per object and still the written sound (osu/taiko/catch); "
+                "control points strictly increasing; all floats finite and inside the documented clamps; from_bytes == from_path "
+                "(== from_str for UTF-8). Every 8th case drives TandemSorter against the stable reference sort and osu_legacy on "
+                "pre-sorted tie-heavy slices up to 10^4. non-trivial = decoded map has >= 2 objects; distinct = byte-string digests",
+        "required": {"pairing_maps": 1, "paths:non-utf8": 1, "sorter:tandem": 1, "src:timing-torture": 1, "src:bytes": 1},
+    },
 }
 
 
@@ -248,6 +283,7 @@ def c01(prop, tier, seed):
     chunk = max(1, (total + 31) // 32)
     flavours = [({}, {}), ({"junk_mb": 64}, {}), ({}, {"RPV_PADDING": "x" * 3000}), ({"junk_mb": 7}, {"RPV_PADDING": "y" * 17}),
                 ({"junk_mb": 129}, {}), ({}, {"MALLOC_ARENA_MAX": "1"})]
+    flavour_names = ["plain", "64MiB-junk-first", "env+3000B", "7MiB-junk+env+17B", "129MiB-junk-first", "MALLOC_ARENA_MAX=1"]
     import concurrent.futures as cf
     jobs = []
     s = 0
@@ -302,13 +338,13 @@ def c01(prop, tier, seed):
                     opn = k.split("/")[2].split(":")[0]
                     agg.viol.append({"sig": f"C01/cross-process/{opn}", "case": case, "seed": seed, "variant": "rel",
                                      "detail": f"key {k}: process 0 observed digests {sorted(vs)}, process {pi} "
-                                               f"({flavours[pi % len(flavours)]}) observed {sorted(o)}",
+                                               f"({flavour_names[pi % len(flavours)]}) observed {sorted(o)}",
                                      "input": None})
                     agg.viol_sig_counts[f"C01/cross-process/{opn}"] = agg.viol_sig_counts.get(f"C01/cross-process/{opn}", 0) + 1
     if joined == 0:
         agg.inconclusive.append("cross-process join compared nothing")
     # keys missing in another process only happen when a case stopped early at a violation
-    extra_cov = {"processes": nproc, "process_flavours": [str(f) for f in flavours[:nproc]], "cross_process_keys_joined": joined,
+    extra_cov = {"processes": nproc, "process_flavours": flavour_names[:nproc], "cross_process_keys_joined": joined,
                  "cross_process_mismatches": mismatches, "cross_process_keys_missing": missing}
     return D.conclude(prop, tier, seed, agg, t0, C01_RULE, COMMON_ASSUME + [
         "independence from time and addresses is only refuted across the wall-clock times and process layouts the runs happen at"],
